@@ -39,8 +39,11 @@ def fake_open(path: str, mode: str = "r", **_k: Any) -> Any:
     return io.StringIO(FILES[path])
 
 
-def record(i: int, kind: int) -> dict[str, Any]:
-    r: dict[str, Any] = {"job_name": "wf", "job_id": f"t{i}", "event_type": f"T{i}", "event_id": f"e{i}",
+SEPS = ["", "\x0b", "\x0c", "\x1c", "\x1d", "\x1e", "\x85", "\u2028", "\u2029", "\x1b", "\t"]
+
+
+def record(i: int, kind: int, sep: int = 0) -> dict[str, Any]:
+    r: dict[str, Any] = {"job_name": "w" + SEPS[sep] + "f", "job_id": f"t{i}", "event_type": f"T{i}", "event_id": f"e{i}",
                          "start_timestamp": "10", "end_timestamp": 20, "application_name": "app", "parent_event_id": None}
     if kind == 1:
         del r["event_id"]
@@ -51,11 +54,15 @@ def record(i: int, kind: int) -> dict[str, Any]:
     return r
 
 
-def scenario(kinds: list[int], per_line: bool, split: int) -> Optional[str]:
-    recs = [record(i, k) for i, k in enumerate(kinds)]
+def scenario(kinds: list[int], per_line: bool, split: int, sep: int = 0) -> Optional[str]:
+    recs = [record(i, k, sep if i == 0 else 0) for i, k in enumerate(kinds)]
     FILES.clear()
     if per_line:
-        FILES["/d/a.json"] = "\n".join(json.dumps({"records": part}) for part in (recs[:split], recs[split:]))
+        # raw (unescaped) characters inside string leaves, as a producer that does not escape them would write
+        FILES["/d/a.json"] = "\n".join(json.dumps({"records": part}, ensure_ascii=False).replace("\\u000b", "\x0b")
+                                       .replace("\\f", "\x0c").replace("\\u001c", "\x1c").replace("\\u001d", "\x1d")
+                                       .replace("\\u001e", "\x1e").replace("\\u001b", "\x1b").replace("\\t", "\t")
+                                       for part in (recs[:split], recs[split:]))
         files = ["/d/a.json"]
     else:
         FILES["/d/a.json"] = json.dumps({"records": recs[:split]}, indent=1)
@@ -98,6 +105,15 @@ def pre(k0: int, k1: int, k2: int, k3: int, per_line: bool, split: int) -> bool:
     return 0 <= split <= n
 
 
+def separators(sep: int, split: int) -> bool:
+    """
+    pre: 0 <= sep < 11 and 0 <= split <= 3
+    post: _
+    """
+    path_tick()
+    return scenario([0, 0, 0], True, split, sep) is None and scenario([0, 0, 0], False, split, sep) is None
+
+
 def check(k0: int, k1: int, k2: int, k3: int, per_line: bool, split: int) -> bool:
     """
     pre: pre(k0, k1, k2, k3, per_line, split)
@@ -116,6 +132,9 @@ def twin(k0: int, k1: int, k2: int, k3: int, per_line: bool, split: int) -> bool
 
 
 def replay(args: list[Any], c: dict[str, Any]) -> dict[str, Any]:
+    if c.get("kind") == "separators":
+        msg = scenario([0, 0, 0], True, int(args[1]), int(args[0])) or scenario([0, 0, 0], False, int(args[1]), int(args[0]))
+        return {"violates": msg is not None, "sig": "record-skip", "what": (msg or "ok") + f" [character {SEPS[int(args[0])]!r} inside a string leaf]"}
     msg = scenario([int(a) for a in args[:4]][:c.get("n", 4)], bool(args[4]), int(args[5]))
     return {"violates": msg is not None, "sig": "record-skip", "what": msg or "valid records are yielded, invalid ones skipped"}
 
